@@ -4,6 +4,8 @@ CONSTANTS
  Types = {"Uint32", "Uint64", "Uint128", "Byte32", "Uint256", "Bytes", "BytesOpt", "BytesOptVec", "BytesVec", "Byte32Vec", "ScriptOpt", "ProposalShortId", "UncleBlockVec", "TransactionVec", "ProposalShortIdVec", "CellDepVec", "CellInputVec", "CellOutputVec", "Script", "OutPoint", "CellInput", "CellOutput", "CellDep", "RawTransaction", "Transaction", "RawHeader", "Header", "UncleBlock", "Block", "CellbaseWitness", "WitnessArgs", "BoolOpt", "Byte32Opt", "Bool", "BeUint32", "BeUint64", "Uint32Vec", "Uint64Vec", "Uint256Vec", "CellOutputOpt", "HeaderVec", "OutPointVec", "Uint64VecOpt", "HeaderDigest", "HeaderView", "UncleBlockVecView", "TransactionView", "BlockExt", "BlockExtV1", "EpochExt", "TransactionKey", "NumberHash", "TransactionInfo", "CellEntry", "CellDataEntry", "RelayMessage", "CompactBlock", "RelayTransaction", "RelayTransactionVec", "RelayTransactions", "RelayTransactionHashes", "GetRelayTransactions", "GetBlockTransactions", "BlockTransactions", "GetBlockProposal", "BlockProposal", "IndexTransaction", "IndexTransactionVec", "BlockFilterMessage", "GetBlockFilters", "BlockFilters", "GetBlockFilterHashes", "BlockFilterHashes", "GetBlockFilterCheckPoints", "BlockFilterCheckPoints", "SyncMessage", "GetHeaders", "GetBlocks", "SendHeaders", "SendBlock", "FilteredBlock", "MerkleProof", "InIBD", "HeaderDigestVec", "VerifiableHeader", "VerifiableHeaderVec", "GetLastState", "SendLastState", "GetLastStateProof", "GetBlocksProof", "GetTransactionsProof", "Time", "RawAlert", "Alert", "Identify", "PingPayload", "PingMessage", "Ping", "Pong", "NodeVec", "Node2Vec", "Uint16", "PortOpt", "DiscoveryPayload", "DiscoveryMessage", "GetNodes", "GetNodes2", "Nodes", "Nodes2", "Node", "Node2", "AddressVec", "Address", "IdentifyMessage", "HolePunchingMessage", "ConnectionRequest", "ConnectionRequestDelivered", "ConnectionSync"}
  Deep = 3
  DoEmit = TRUE
+ VarTypes = {"Block", "Transaction", "UncleBlock", "CompactBlock", "BlockTransactions", "SendBlock", "BlockProposal", "FilteredBlock", "RelayTransactions", "SendHeaders"}
+ VarDepth = 3
 INVARIANT ValidOK
 INVARIANT TotalOK
 INVARIANT ExtraOK
